@@ -2251,3 +2251,34 @@ package sarama
 // messages reaching a broker worker were admitted by the dispatcher and counted by the retry path (A-input bound)
 //@ channel brokerProducer.input m
 //@   recv ensures m == nil || (m.retries >= 0 && m.retries < 4611686018427387904 && 0 <= bsz(m, 1) && bsz(m, 1) <= 2305843009213693952 && 0 <= bsz(m, 2) && bsz(m, 2) <= 2305843009213693952 && len(m.Headers) <= 1048576 && forall i :: 0 <= i && i < len(m.Headers) ==> len(m.Headers[i].Key) <= 2147483648 && len(m.Headers[i].Value) <= 2147483648)
+
+// ---------------------------------------------------------------------------------------------
+// sync_producer.go (C01, last clause): a SyncProducer call returns the outcome of its own message. Every success or
+// error event is forwarded, once, to the expectation channel stored in the message it names (nil for a success,
+// the event itself for an error); SendMessage installs a fresh expectation channel in its message before submitting
+// it and returns what arrives on that very channel; a SyncProducer requires both kinds of events to be reported.
+//@ func verifyProducerConfig(config) props C01
+//@   returns err
+//@   requires config != nil
+//@   ensures[needs_both_event_kinds] (err == nil) == (config.Producer.Return.Errors && config.Producer.Return.Successes)
+//@   modifies nothing
+//@ func (p *asyncProducer) Successes() pure
+//@ func (p *asyncProducer) Errors() pure
+//@ func (p *asyncProducer) Input() pure
+//@ func (sp *syncProducer) handleSuccesses() props C01
+//@   requires sp.producer != nil
+//@   callsite send.expectation: requires[to_the_messages_own_channel] $channel == msg.expectation && $value == nil
+//@   loop 0: iter_ensures[answered_once] sent(msg.expectation) == it(sent(msg.expectation)) + 1
+//@   nosafety
+//@ func (sp *syncProducer) handleErrors() props C01
+//@   requires sp.producer != nil
+//@   callsite send.expectation: requires[to_the_messages_own_channel] $channel == err.Msg.expectation && $value == err
+//@   loop 0: iter_ensures[answered_once] sent(err.Msg.expectation) == it(sent(err.Msg.expectation)) + 1
+//@   nosafety
+//@ func (sp *syncProducer) SendMessage(msg) props C01
+//@   returns partition, offset, err
+//@   requires sp.producer != nil && msg != nil
+//@   callsite send.Input: requires[submitted_with_a_fresh_expectation] $value == msg && msg.expectation == expectation && fresh(expectation)
+//@   ensures[failure_has_no_position] err != nil ==> partition == -1 && offset == -1
+//@   ensures[success_reports_the_messages_position] err == nil ==> partition == msg.Partition && offset == msg.Offset
+//@   nosafety
